@@ -126,6 +126,10 @@ def run(ctx):
     tmc.model_check(ctx, "to", model_scenarios(), ["MC_NoStuckThread", "MC_AllReturn", "MC_C07"])
     scs = scenarios(ctx.tier == "quick")
     run_family(ctx, "to", scs)
+    # the same guarantee through the HTTP adapter: a Timeout that fires returns promptly and the attempt on the wire is cancelled,
+    # with and without a request body (clauses timeoutPrompt / attemptCancelled of specs/HttpAdapter.tla)
+    import p_c18
+    p_c18.run_http(ctx, only=p_c18.TIMEOUT_CLAUSES)
     return vlib.finish(ctx, rule="grid of timed scenarios: 8 placements of a Timeout (alone, under/over retry, with fallback, nested timeouts) + hedge and bulkhead placements x function durations "
                        "{0, limit-1, limit, limit+1, 3*limit} x outcome x cooperating-or-not for two attempts x slow/instant timeout listener; each run on the real library in virtual time and its "
                        "trace validated by TLC against FailsafeTTrace; all scenarios are distinct and involve the timer")
